@@ -12,6 +12,7 @@ Inductive op :=
 | OAddBucket (name level parent : Z)
 | OAddServer (name parent : Z) (cap : vec) (label traits valid_until : Z)
 | ORemoveServer (name : Z) (raw : bool)        (* raw: parent.remove_node only; else Loader.remove_server (remove_all first) *)
+| OMoveServer (name newparent : Z)              (* topology change: the server keeps its instances *)
 | OSetState (name : Z) (st : sstate) (since : Z)
 | OSetValidUntil (name t : Z)
 | OAddApp (label : Z) (path : list Z) (a : app) (* cell.add_app: new instance, or an existing one (re)assigned *)
@@ -116,6 +117,7 @@ Definition step (c : cell) (o : op) : cell :=
   | OAddBucket name level parent => add_bucket c name level (Some parent)
   | OAddServer name parent cap label traits vu => add_server c (new_server c name parent cap label traits vu)
   | ORemoveServer name raw => detach_server (if raw then c else srv_remove_all c name) name
+  | OMoveServer name p => move_server c name p
   | OSetState name st since => srv_set_state c name st since
   | OSetValidUntil name t => c_upd_srv name (fun s => s <| s_valid_until := t |>) c
   | OAddApp label path a => add_app c label path a
